@@ -1,7 +1,8 @@
 /-
   Cello/Fmt.lean — executable model of Cello's formatted output (src/Show.c `print_to_with`, `format_to`, `show_to`;
   src/String.c `String_Format_To`, `String_Show`; src/File.c `File_Format_To`; src/Num.c `Int_Show`, `Float_Show`;
-  `Array_Show`, `Tuple_Show`, `List_Show`), and the grammar / reference semantics it is proved against
+  `Array_Show`, `Tuple_Show`, `List_Show`, `Table_Show`, `Tree_Show`, `Range_Show`, `Slice_Show`, `Box_Show`, `Type_Show`,
+  the NULL and no-Show arms of `show_to`), and the grammar / reference semantics it is proved against
   (CelloProofs/Props/C14.lean).  Core Lean only.
 
   Mirrors (src/Show.c):
@@ -11,13 +12,15 @@
         const char* start = fmt;
         while (*fmt isnt '\0' and *fmt isnt '%') { fmt++; }                          -- `scanLit`
         if (start isnt fmt) { memcpy(fmt_buf, start, fmt-start); fmt_buf[fmt-start] = '\0';
-                              off = format_to(out, pos, fmt_buf); pos += off; continue; }
-        if (*fmt is '%' && *(fmt+1) is '%') { off = format_to(out, pos, "%%"); pos += off; fmt += 2; continue; }
+                              off = format_to(out, pos, fmt_buf); if (off < 0) throw(FormatError, …); pos += off; continue; }
+        if (*fmt is '%' && *(fmt+1) is '%') { off = format_to(out, pos, "%%"); if (off < 0) throw(FormatError, …);
+                                              pos += off; fmt += 2; continue; }
         while (not strchr("diuoxX…$", *fmt)) { fmt++; }                               -- `scanConv`
         if (start isnt fmt) { memcpy(fmt_buf, start, fmt-start+1); fmt_buf[fmt-start+1] = '\0';
                               if (index >= len(args)) throw(FormatError, …);
                               var a = get(args, $I(index)); index++;
-                              if (*fmt is '$') …  if (*fmt is 's') …  if (strchr("diouxX", *fmt)) …   -- `dispatch`
+                              if (*fmt is '$') …  if (*fmt is 's') …  if (strchr("diouxX", *fmt)) …   -- `dispatch`; each
+                              format_to is followed by `if (off < 0) { throw(FormatError, …); }`        -- `Out.call`
                               fmt++; continue; }
         throw(FormatError, "Invalid Format String!");
       }
